@@ -22,30 +22,48 @@ type DO1 struct{ at.Object }
 type DO2 struct{ *DO1 }
 type DO3 struct{ *DO2 }
 
-func newDerivedList(depth int, init ...any) at.List {
+// newDerivedList builds a derived list `depth` embedding levels deep. With
+// everyLevel every constructor level registers itself with Init before the
+// next level does (the README's NewAnimal / NewDog pattern); otherwise only
+// the outermost value calls Init.
+func newDerivedList(depth int, everyLevel bool, init ...any) at.List {
 	d1 := &DL1{List: at.NewList(init...)}
-	var outer at.List = d1
-	switch depth {
-	case 2:
-		outer = &DL2{DL1: d1}
-	case 3:
-		outer = &DL3{DL2: &DL2{DL1: d1}}
+	if everyLevel || depth == 1 {
+		d1.Init(d1)
 	}
-	outer.Init(outer)
-	return outer
+	if depth == 1 {
+		return d1
+	}
+	d2 := &DL2{DL1: d1}
+	if everyLevel || depth == 2 {
+		d2.Init(d2)
+	}
+	if depth == 2 {
+		return d2
+	}
+	d3 := &DL3{DL2: d2}
+	d3.Init(d3)
+	return d3
 }
 
-func newDerivedObject(depth int, init ...any) at.Object {
+func newDerivedObject(depth int, everyLevel bool, init ...any) at.Object {
 	d1 := &DO1{Object: at.NewObject(init...)}
-	var outer at.Object = d1
-	switch depth {
-	case 2:
-		outer = &DO2{DO1: d1}
-	case 3:
-		outer = &DO3{DO2: &DO2{DO1: d1}}
+	if everyLevel || depth == 1 {
+		d1.Init(d1)
 	}
-	outer.Init(outer)
-	return outer
+	if depth == 1 {
+		return d1
+	}
+	d2 := &DO2{DO1: d1}
+	if everyLevel || depth == 2 {
+		d2.Init(d2)
+	}
+	if depth == 2 {
+		return d2
+	}
+	d3 := &DO3{DO2: d2}
+	d3.Init(d3)
+	return d3
 }
 
 type FluentCall struct {
@@ -60,6 +78,8 @@ type C19Case struct {
 	IsObject bool         `json:"isobject"`
 	Calls    []FluentCall `json:"calls"`
 	Store    int          `json:"store"` // which storing entry point is used for the storage half
+	// InitEveryLevel: each embedding level calls Init in its constructor (README pattern), not only the outermost
+	InitEveryLevel bool `json:"initeverylevel"`
 }
 
 // derivingMethods return a new container or an element, not the receiver.
@@ -96,7 +116,7 @@ var (
 const c19StoreWays = 14
 
 func GenC19(t *rapid.T) *C19Case {
-	c := &C19Case{Depth: drawInt(t, 1, 3, "depth"), IsObject: drawBool(t, "isobject"), Store: drawIdx(t, c19StoreWays, "store")}
+	c := &C19Case{Depth: drawInt(t, 1, 3, "depth"), IsObject: drawBool(t, "isobject"), Store: drawIdx(t, c19StoreWays, "store"), InitEveryLevel: drawBool(t, "initeach")}
 	names := listFluent
 	if c.IsObject {
 		names = objectFluent
@@ -558,9 +578,14 @@ func CheckC19(c *C19Case, st *Stats) error {
 	}
 	var d any
 	if c.IsObject {
-		d = newDerivedObject(depth, "a", 1, "b", "two")
+		d = newDerivedObject(depth, c.InitEveryLevel, "a", 1, "b", "two")
 	} else {
-		d = newDerivedList(depth, 3, 1, 2)
+		d = newDerivedList(depth, c.InitEveryLevel, 3, 1, 2)
+	}
+	if c.InitEveryLevel {
+		st.Count("init.every_level")
+	} else {
+		st.Count("init.outermost_only")
 	}
 	// Ego returns the registered outer value
 	switch x := d.(type) {
